@@ -236,26 +236,32 @@ Qed.
 Lemma table_ok_step : forall mt prod now o tb, 1 <= mt -> table_ok mt tb ->
   table_ok mt (fst (fst (step fixed mt prod now o tb))).
 Proof.
-  intros mt prod now o tb Hmt Hok. destruct o as [u k h t|u|f| |]; unfold step.
+  intros mt prod now o tb Hmt Hok. destruct o as [u k h t|u|f| |m|]; unfold step.
   - pose proof (table_ok_register mt u k h t tb Hmt Hok) as H. destruct (register fixed u k h t tb). exact H.
   - pose proof (table_ok_delete mt u tb Hok) as H. destruct (delete u tb). exact H.
   - pose proof (table_ok_notify mt prod f now tb Hmt Hok) as H. destruct (notify fixed mt prod f now tb). exact H.
   - exact Hok.
   - exact Hok.
+  - exact Hok.
 Qed.
 
-Lemma table_ok_run_from : forall mt prod ops now tb, 1 <= mt -> table_ok mt tb ->
+Lemma next_mt_kept : forall mt o, limit_kept mt o -> next_mt mt o = mt.
+Proof. intros mt o H. destruct o; try reflexivity. exact H. Qed.
+
+Lemma table_ok_run_from : forall mt prod ops now tb, 1 <= mt -> Forall (limit_kept mt) ops -> table_ok mt tb ->
   table_ok mt (snd (run_from fixed mt prod now ops tb)).
 Proof.
-  intros mt prod ops. induction ops as [|o ops IH]; intros now tb Hmt Hok; [exact Hok|].
-  simpl run_from. pose proof (table_ok_step mt prod now o tb Hmt Hok) as Hs.
+  intros mt prod ops. induction ops as [|o ops IH]; intros now tb Hmt Hk Hok; [exact Hok|].
+  inversion Hk as [|x l Hko Hk']; subst.
+  simpl run_from. rewrite (next_mt_kept _ _ Hko). pose proof (table_ok_step mt prod now o tb Hmt Hok) as Hs.
   destruct (step fixed mt prod now o tb) as [[tb' r] ps]. simpl in Hs.
-  pose proof (IH (now + 1) tb' Hmt Hs) as H. destruct (run_from fixed mt prod (now + 1) ops tb'). exact H.
+  pose proof (IH (now + 1) tb' Hmt Hk' Hs) as H. destruct (run_from fixed mt prod (now + 1) ops tb'). exact H.
 Qed.
 
-(* every table the repaired model can reach satisfies the invariant *)
-Theorem table_ok_reachable : forall mt prod ops, 1 <= mt -> table_ok mt (table_after fixed mt prod ops).
-Proof. intros mt prod ops Hmt. unfold table_after, run. apply table_ok_run_from; [exact Hmt | apply table_ok_nil]. Qed.
+(* every table the repaired model can reach under one limit satisfies the invariant *)
+Theorem table_ok_reachable : forall mt prod ops, 1 <= mt -> Forall (limit_kept mt) ops ->
+  table_ok mt (table_after fixed mt prod ops).
+Proof. intros mt prod ops Hmt Hk. unfold table_after, run. apply table_ok_run_from; [exact Hmt | exact Hk | apply table_ok_nil]. Qed.
 
 (* ---------- the clauses ---------- *)
 Theorem notify_clause_fixed : forall mt prod tb, 1 <= mt -> table_ok mt tb -> notify_clause fixed mt prod tb.
@@ -331,7 +337,7 @@ Qed.
 (* ---------- C12_main ---------- *)
 Theorem C12_statement_fixed : C12_statement fixed.
 Proof.
-  intros mt prod ops Hmt tb. pose proof (table_ok_reachable mt prod ops Hmt) as Hok. fold tb in Hok.
+  intros mt prod ops Hmt Hk tb. pose proof (table_ok_reachable mt prod ops Hmt Hk) as Hok. fold tb in Hok.
   split; [exact Hok|]. split; [apply notify_clause_fixed; assumption|].
   split; [apply register_clause_fixed|]. split; [apply delete_clause_all | apply get_clause_fixed].
 Qed.
@@ -344,7 +350,7 @@ Definition w_reg_notify_ok : list op := [OpRegister 0 KBearer 0 1; OpNotify (fun
 (* without repair C12-1: max_tries = 3, one failed delivery, and the webhook is inactive with count 1 *)
 Lemma maxtries_refuted_gen : forall b2 b3, ~ C12_statement (mkFixes false b2 b3).
 Proof.
-  intros b2 b3 H. specialize (H 3 false w_reg_bearer ltac:(lia)). cbv zeta in H.
+  intros b2 b3 H. specialize (H 3 false w_reg_bearer ltac:(lia) ltac:(repeat constructor)). cbv zeta in H.
   destruct H as (_ & Hn & _). specialize (Hn (fun _ => OStatus 503) 2 0). cbv zeta in Hn.
   destruct b2, b3; vm_compute in Hn; destruct Hn as (_ & r' & Hr' & _ & _ & _ & _ & _ & _ & Hbad);
     injection Hr' as Hr'; subst r'; destruct (Hbad eq_refl) as (_ & Hiff & _); specialize (Hiff eq_refl); discriminate.
@@ -353,7 +359,7 @@ Qed.
 (* without repair C12-2: after a delivered event GET still reports "" / never, although the row has the attempt *)
 Lemma lastemit_refuted_gen : forall b1 b3, ~ C12_statement (mkFixes b1 false b3).
 Proof.
-  intros b1 b3 H. specialize (H 3 false w_reg_notify_ok ltac:(lia)). cbv zeta in H.
+  intros b1 b3 H. specialize (H 3 false w_reg_notify_ok ltac:(lia) ltac:(repeat constructor)). cbv zeta in H.
   destruct H as (_ & _ & _ & _ & Hg). specialize (Hg 0). destruct Hg as [Hg _].
   destruct b1, b3; vm_compute in Hg; discriminate.
 Qed.
@@ -361,7 +367,7 @@ Qed.
 (* without repair C12-3, production client: an active webhook without authorisation receives no POST *)
 Lemma noauth_refuted_prod_gen : forall b1 b2, ~ C12_statement (mkFixes b1 b2 false).
 Proof.
-  intros b1 b2 H. specialize (H 3 true w_reg_none ltac:(lia)). cbv zeta in H.
+  intros b1 b2 H. specialize (H 3 true w_reg_none ltac:(lia) ltac:(repeat constructor)). cbv zeta in H.
   destruct H as (_ & Hn & _). specialize (Hn (fun _ => OStatus 200) 2 0). cbv zeta in Hn.
   destruct b1, b2; vm_compute in Hn; destruct Hn as (Hp & _); discriminate.
 Qed.
@@ -528,3 +534,182 @@ Proof.
       split; [lia|]. split; [symmetry; apply Z.ltb_ge; lia|]. split; [reflexivity|]. split; [reflexivity|].
       simpl. lia.
 Qed.
+
+(* ====================================================================================================
+   Restarts that CHANGE webhook.max_tries.  Nothing in the repaired model remembers a limit: the limit is an
+   argument of every notify step, so all that is needed is the invariant-free form of the clauses (unique urls only)
+   and passing the limit in force.
+   ==================================================================================================== *)
+Lemma nodup_notify : forall mt prod f now tb, NoDup (map r_url tb) ->
+  NoDup (map r_url (fst (notify fixed mt prod f now tb))).
+Proof.
+  intros mt prod f now tb Hnd. rewrite (notify_fixed_closed _ _ _ _ _ Hnd). simpl.
+  rewrite map_map. erewrite map_ext; [exact Hnd|]. intros a. apply upd_url.
+Qed.
+
+Lemma nodup_register : forall u k h t tb, NoDup (map r_url tb) -> NoDup (map r_url (fst (register fixed u k h t tb))).
+Proof.
+  intros u k h t tb Hnd. unfold register. destruct (find_row u tb) as [r|] eqn:Hf.
+  - rewrite load_fixed_id. destruct (r_active r); [exact Hnd|]. simpl fst. rewrite persist_urls. exact Hnd.
+  - destruct (rewrite_auth k h t) as [hd tk]. simpl fst. rewrite map_app. simpl.
+    apply nodup_snoc; [exact Hnd | apply (find_row_none_notin _ _ Hf)].
+Qed.
+
+Lemma nodup_delete : forall u tb, NoDup (map r_url tb) -> NoDup (map r_url (fst (delete u tb))).
+Proof.
+  intros u tb Hnd. unfold delete. destruct (find_row u tb); [|exact Hnd]. simpl fst.
+  induction tb as [|a tb IH]; [constructor|].
+  simpl in Hnd. inversion Hnd as [|x l Hnotin Hnd']; subst. simpl filter.
+  destruct (negb (r_url a =? u)); [|apply IH; exact Hnd'].
+  simpl. constructor; [|apply IH; exact Hnd'].
+  intro Hin. apply Hnotin. apply in_map_iff in Hin. destruct Hin as [r0 [Hr Hin]].
+  apply filter_In in Hin. rewrite <- Hr. apply in_map. apply Hin.
+Qed.
+
+Lemma nodup_step : forall mt prod now o tb, NoDup (map r_url tb) ->
+  NoDup (map r_url (fst (fst (step fixed mt prod now o tb)))).
+Proof.
+  intros mt prod now o tb Hnd. destruct o as [u k h t|u|f| |m|]; unfold step.
+  - pose proof (nodup_register u k h t tb Hnd) as H. destruct (register fixed u k h t tb). exact H.
+  - pose proof (nodup_delete u tb Hnd) as H. destruct (delete u tb). exact H.
+  - pose proof (nodup_notify mt prod f now tb Hnd) as H. destruct (notify fixed mt prod f now tb). exact H.
+  - exact Hnd.
+  - exact Hnd.
+  - exact Hnd.
+Qed.
+
+Lemma nodup_run_from : forall prod ops mt now tb, NoDup (map r_url tb) ->
+  NoDup (map r_url (snd (run_from fixed mt prod now ops tb))).
+Proof.
+  intros prod ops. induction ops as [|o ops IH]; intros mt now tb Hnd; [exact Hnd|].
+  simpl run_from. pose proof (nodup_step mt prod now o tb Hnd) as Hs.
+  destruct (step fixed mt prod now o tb) as [[tb' r] ps]. simpl in Hs.
+  pose proof (IH (next_mt mt o) (now + 1) tb' Hs) as H. destruct (run_from fixed (next_mt mt o) prod (now + 1) ops tb'). exact H.
+Qed.
+
+Theorem nodup_reachable : forall mt prod ops, NoDup (map r_url (table_after fixed mt prod ops)).
+Proof. intros. unfold table_after, run. apply nodup_run_from. constructor. Qed.
+
+Theorem notify_clause_any_fixed : forall mt prod tb, NoDup (map r_url tb) -> notify_clause_any fixed mt prod tb.
+Proof.
+  intros mt prod tb Hnd f now u. cbv zeta. rewrite (notify_fixed_closed _ _ _ _ _ Hnd). simpl fst. simpl snd.
+  rewrite (posts_to_closed _ _ Hnd). rewrite (find_row_map _ u tb (upd_url mt f now)).
+  destruct (find_row u tb) as [r|] eqn:Hf; [|split; reflexivity].
+  apply find_row_some in Hf. destruct Hf as [Hin Hu].
+  destruct (r_active r) eqn:Ha.
+  - split; [unfold post_of; rewrite Hu; reflexivity|].
+    simpl option_map. unfold upd. rewrite Ha. eexists. split; [reflexivity|].
+    rewrite update_after_url, update_after_hdr, update_after_tok. rewrite Hu.
+    unfold update_after. destruct (is_ok (f u)) eqn:Hk; simpl.
+    + repeat split; try reflexivity; intros; discriminate.
+    + rewrite Ha. repeat split; try reflexivity; try (intros; discriminate).
+      * intros Hfalse. destruct (r_errors r + 1 >=? mt) eqn:Hge; [|discriminate]. apply Z.geb_le in Hge. lia.
+      * intros He. assert (Hge : (r_errors r + 1 >=? mt) = true) by (apply Z.geb_le; lia). rewrite Hge. reflexivity.
+  - split; [reflexivity|]. simpl. unfold upd. rewrite Ha. reflexivity.
+Qed.
+
+Theorem C12_statement_any_fixed : C12_statement_any fixed.
+Proof.
+  intros mt prod ops tb. pose proof (nodup_reachable mt prod ops) as Hnd. fold tb in Hnd.
+  split; [exact Hnd|]. split; [apply notify_clause_any_fixed; exact Hnd|].
+  split; [apply register_clause_fixed|]. split; [apply delete_clause_all | apply get_clause_fixed].
+Qed.
+
+Lemma inactive_stays_any : forall mt prod evs tb u r, NoDup (map r_url tb) ->
+  find_row u tb = Some r -> r_active r = false ->
+  find_row u (fst (notify_seq fixed mt prod evs tb)) = Some r /\ posts_to u (snd (notify_seq fixed mt prod evs tb)) = [].
+Proof.
+  intros mt prod evs. induction evs as [|ev rest IH]; intros tb u r Hnd Hf Ha.
+  - simpl. split; [exact Hf | reflexivity].
+  - rewrite notify_seq_cons. simpl fst. simpl snd.
+    pose proof (notify_clause_any_fixed mt prod tb Hnd (fst ev) (snd ev) u) as Hc. cbv zeta in Hc.
+    rewrite Hf, Ha in Hc. destruct Hc as [Hp Hf1].
+    pose proof (nodup_notify mt prod (fst ev) (snd ev) tb Hnd) as Hnd1.
+    destruct (IH _ u r Hnd1 Hf1 Ha) as [Hf2 Hp2]. split; [exact Hf2|].
+    rewrite posts_to_app, Hp, Hp2. reflexivity.
+Qed.
+
+(* n consecutive failed deliveries under the limit mt to an active webhook whose count is e - WHATEVER e is (it may
+   already be at or above mt when the limit was lowered by a restart): it receives k = min(n, max(1, mt - e)) POSTs,
+   its count ends at e + k, and it is still active exactly when no event came or e + n < mt.  So it is switched off by
+   the first failure that brings (or finds) the count at or above the limit in force, and never called afterwards. *)
+Theorem failing_streak_any : forall mt prod evs tb u r, NoDup (map r_url tb) ->
+  find_row u tb = Some r -> r_active r = true ->
+  Forall (fun ev => is_ok (fst ev u) = false) evs ->
+  let n := Z.of_nat (length evs) in
+  let k := Z.min n (Z.max 1 (mt - r_errors r)) in
+  exists r', find_row u (fst (notify_seq fixed mt prod evs tb)) = Some r' /\
+    r_errors r' = r_errors r + k /\
+    (r_active r' = true <-> (n = 0 \/ r_errors r + n < mt)) /\
+    r_hdr r' = r_hdr r /\ r_tok r' = r_tok r /\
+    Z.of_nat (length (posts_to u (snd (notify_seq fixed mt prod evs tb)))) = k.
+Proof.
+  intros mt prod evs. induction evs as [|ev rest IH]; intros tb u r Hnd Hf Ha Hall; cbv zeta.
+  - exists r. simpl. split; [exact Hf|]. split; [lia|]. split; [|split; [reflexivity | split; [reflexivity | lia]]].
+    split; [intros _; left; reflexivity | intros _; exact Ha].
+  - rewrite notify_seq_cons. simpl fst. simpl snd.
+    inversion Hall as [|x l Hev Hrest]; subst.
+    pose proof (notify_clause_any_fixed mt prod tb Hnd (fst ev) (snd ev) u) as Hc. cbv zeta in Hc.
+    rewrite Hf, Ha in Hc. destruct Hc as [Hp (r1 & Hf1 & _ & Hh1 & Ht1 & _ & _ & _ & Hbad)].
+    destruct (Hbad Hev) as [He1 Hiff].
+    pose proof (nodup_notify mt prod (fst ev) (snd ev) tb Hnd) as Hnd1.
+    rewrite posts_to_app, Hp, app_length. simpl length. rewrite Nat2Z.inj_succ.
+    destruct (r_active r1) eqn:Ha1.
+    + assert (Hlt : r_errors r + 1 < mt).
+      { destruct (Z_lt_le_dec (r_errors r + 1) mt) as [Hl|Hl]; [exact Hl|]. apply Hiff in Hl. discriminate. }
+      destruct (IH _ u r1 Hnd1 Hf1 Ha1 Hrest) as (r' & Hf' & He' & Ha' & Hh' & Ht' & Hp').
+      cbv zeta in *. exists r'. split; [exact Hf'|]. rewrite He', Hh', Ht', He1, Hh1, Ht1.
+      split; [lia|]. split; [rewrite Ha', He1; lia|]. split; [reflexivity|]. split; [reflexivity|].
+      rewrite Nat2Z.inj_add. simpl Z.of_nat at 1. rewrite Hp', He1. lia.
+    + assert (Hge : mt <= r_errors r + 1) by (apply Hiff; reflexivity).
+      destruct (inactive_stays_any mt prod rest _ u r1 Hnd1 Hf1 Ha1) as [Hf' Hp'].
+      exists r1. split; [exact Hf'|]. rewrite Hp'. simpl length. rewrite He1, Ha1, Hh1, Ht1.
+      split; [lia|]. split; [split; [discriminate | lia]|]. split; [reflexivity|]. split; [reflexivity|].
+      simpl. lia.
+Qed.
+
+(* a failing streak that straddles a restart which changes the limit from mt1 to mt2: n1 failures before (the webhook is
+   still active at the restart), n2 after.  After the restart only the NEW limit counts, for a webhook registered before it. *)
+Theorem failing_streak_across_restart : forall mt1 mt2 prod evs1 evs2 tb u r, NoDup (map r_url tb) ->
+  find_row u tb = Some r -> r_active r = true ->
+  Forall (fun ev => is_ok (fst ev u) = false) evs1 -> Forall (fun ev => is_ok (fst ev u) = false) evs2 ->
+  let n1 := Z.of_nat (length evs1) in
+  let n2 := Z.of_nat (length evs2) in
+  let e := r_errors r in
+  e + n1 < mt1 -> 0 <= e ->
+  let tb1 := fst (notify_seq fixed mt1 prod evs1 tb) in
+  let st2 := notify_seq fixed mt2 prod evs2 (fst (fst (step fixed mt1 prod 0 (OpRestartMt mt2) tb1))) in
+  let k2 := Z.min n2 (Z.max 1 (mt2 - (e + n1))) in
+  exists r', find_row u (fst st2) = Some r' /\
+    r_errors r' = e + n1 + k2 /\
+    (r_active r' = true <-> (n2 = 0 \/ e + n1 + n2 < mt2)) /\
+    Z.of_nat (length (posts_to u (snd st2))) = k2.
+Proof.
+  intros mt1 mt2 prod evs1 evs2 tb u r Hnd Hf Ha H1 H2 n1 n2 e Hlt He0 tb1 st2 k2.
+  destruct (failing_streak_any mt1 prod evs1 tb u r Hnd Hf Ha H1) as (r1 & Hf1 & He1 & Ha1 & _ & _ & _).
+  cbv zeta in He1, Ha1. fold n1 in He1, Ha1. fold e in He1, Ha1.
+  assert (He1' : r_errors r1 = e + n1) by lia.
+  assert (Ha1' : r_active r1 = true) by (apply Ha1; right; exact Hlt).
+  assert (Hnd1 : NoDup (map r_url tb1)).
+  { unfold tb1. clear -Hnd. revert tb Hnd. induction evs1 as [|ev rest IH]; intros tb Hnd; [exact Hnd|].
+    rewrite notify_seq_cons. simpl fst. apply IH. apply nodup_notify. exact Hnd. }
+  fold tb1 in Hf1.
+  destruct (failing_streak_any mt2 prod evs2 tb1 u r1 Hnd1 Hf1 Ha1' H2) as (r' & Hf' & He' & Ha' & _ & _ & Hp').
+  cbv zeta in He', Ha', Hp'. fold n2 in He', Ha', Hp'. rewrite He1' in He', Ha', Hp'. fold k2 in He', Hp'.
+  exists r'. unfold st2. simpl fst at 2. unfold restart.
+  split; [exact Hf'|]. split; [lia|]. split; [exact Ha' | exact Hp'].
+Qed.
+
+(* lowered 6 -> 3 with two failures before the restart: switched off by the first failure after it (count 3);
+   raised 2 -> 5 with one failure before: survives its second, third and fourth failure and is switched off at the fifth;
+   a webhook registered after the restart is judged by the same limit *)
+Example changed_limit_sample :
+  let f := fun _ : Z => OStatus 503 in
+  map view_of (table_after_fixed 6 false
+    [OpRegister 0 KBearer 0 1; OpNotify f; OpNotify f; OpRestartMt 3; OpRegister 1 KNone 0 0; OpNotify f; OpNotify f; OpNotify f])
+  = [(3, false, SOut (OStatus 503), 6); (3, false, SOut (OStatus 503), 8)] /\
+  map view_of (table_after_fixed 2 false
+    [OpRegister 0 KBearer 0 1; OpNotify f; OpRestartMt 5; OpNotify f; OpNotify f; OpNotify f; OpRestart; OpNotify f; OpNotify f])
+  = [(5, false, SOut (OStatus 503), 8)] /\
+  limit_after 2 [OpRegister 0 KBearer 0 1; OpNotify f; OpRestartMt 5; OpNotify f; OpRestart] = 5.
+Proof. vm_compute. repeat split; reflexivity. Qed.
